@@ -254,7 +254,7 @@ def r3(ctx):
     after_rank = f.body[f.body.index(ranked[0]) + 1:] if ranked[0] in f.body else f.body
     bad = []
     best = {f'({var}[0][0], {var}[0][1])', f'{var}[0]'}
-    for case, outs in outcomes_by_case(after_rank, cases, atom):
+    for case, outs in outcomes_by_case(after_rank, cases, atom, truthy=lambda x, case: (case['n'] > 0) if src(x) == var else None):
         undecidable = case['n'] == 0 or (case['n'] >= 2 and case['p0'] == case['p1'])
         rets = {v for k, v in outs if k == 'return'}
         good = (rets == {"('N', 0)"}) if undecidable else (len(rets) == 1 and next(iter(rets)) in best)
@@ -279,11 +279,44 @@ def r3(ctx):
                        'every pseudo-read, and a value that may be None is never subscripted unguarded')
 def r4(ctx):
     f = ctx.fn(MOLECULE, 'Molecule.get_consensus_read')
-    asg = [s for s in walk_no_nested(f) if isinstance(s, ast.Assign) and src(s.targets[0]).endswith('.cigarstring')]
-    dflt = [s for s in asg if isinstance(s.value, ast.JoinedStr)]
-    seqasg = [s for s in walk_no_nested(f) if isinstance(s, ast.Assign) and src(s.targets[0]).endswith('.query_sequence')]
-    ok = len(dflt) == 1 and len(seqasg) == 1 and src(dflt[0].value) == "f'{len(" + src(seqasg[0].value) + ")}M'"
-    ctx.emit('C15-R4', ok, MOLECULE, dflt[0] if dflt else f, f'default CIGAR {src(dflt[0].value) if dflt else None} for sequence `{src(seqasg[0].value) if seqasg else None}`', key='default-cigar')
+    # path-based: with no CIGAR supplied, the CIGAR stored on the pseudo-read is f'{len(S)}M' for the very S stored as its sequence; a
+    # supplied CIGAR is stored unchanged
+    from ..util import explore, mk_atoms
+    cig_param = 'cigarstring'
+    problems = []
+    npaths = 0
+    shown = None
+    for supplied in (False, True):
+        for r in explore(f.body, mk_atoms({f'{cig_param} is None': not supplied, f'{cig_param} is not None': supplied}), names=None, max_paths=4000):
+            if r['kind'] not in ('return', 'fall'):
+                continue
+            npaths += 1
+            cs = [v for t, v, k in r['stores'] if t.endswith('.cigarstring')]
+            qs = [v for t, v, k in r['stores'] if t.endswith('.query_sequence')]
+            if len(cs) != 1 or len(qs) != 1:
+                problems.append(f'CIGAR / sequence stored {len(cs)} / {len(qs)} times on a path')
+                continue
+
+            def res(v):
+                for _ in range(4):
+                    if v in r['env'] and not (supplied and v == cig_param):
+                        nv = src(r['env'][v])
+                        if nv == v:
+                            break
+                        v = nv
+                    else:
+                        break
+                return v
+            cv = res(cs[0])
+            if supplied:
+                if cv != cig_param:
+                    problems.append(f'a supplied CIGAR is replaced by `{cv}`')
+            else:
+                shown = cv
+                if cv not in ("f'{len(" + qs[0] + ")}M'", "f'{len(" + res(qs[0]) + ")}M'", "str(len(" + qs[0] + ")) + 'M'"):
+                    problems.append(f'default CIGAR `{cv}` does not span the stored sequence `{qs[0]}`')
+    ctx.counters['paths_enumerated'] += npaths
+    ctx.emit('C15-R4', not problems and npaths >= 2, MOLECULE, f, f'default CIGAR {shown} spans the stored sequence on all {npaths} paths; a supplied CIGAR is kept' if not problems else problems[0], key='default-cigar')
     okq = any(src(s.targets[0]).endswith('.query_qualities') for s in walk_no_nested(f) if isinstance(s, ast.Assign))
     calls_tags = any(isinstance(c, ast.Call) and isinstance(c.func, ast.Attribute) and c.func.attr == 'write_tags_to_psuedoreads' for c in walk_no_nested(f))
     ctx.emit('C15-R4', okq and calls_tags, MOLECULE, f, 'get_consensus_read sets qualities and writes the molecule tags to the pseudo-read', key='consensus-read:tags-called', nontrivial=False)
@@ -295,8 +328,36 @@ def r4(ctx):
     kw = {k.arg: k.value for k in call[0].keywords}
     loopt = [l for l in walk_no_nested(gd) if isinstance(l, ast.For) and 'generate_partial_reads' in src(l.iter)]
     names = [e.id for e in loopt[0].target.elts] if loopt and isinstance(loopt[0].target, ast.Tuple) else []
-    ok = len(names) == 6 and names_in(kw.get('consensus', ast.Constant(0))) & {names[2]} and names_in(kw.get('phred_scores', ast.Constant(0))) & {names[3]} \
-        and names_in(kw.get('cigarstring', ast.Constant(0))) & {names[4]} and src(kw.get('start', ast.Constant(0))) == names[0]
+    if loopt and isinstance(loopt[0].target, ast.Name):
+        # `for item in ...: a, b, c, d, e, f = item`
+        for st_ in loopt[0].body:
+            if isinstance(st_, ast.Assign) and isinstance(st_.targets[0], ast.Tuple) and src(st_.value) == loopt[0].target.id and all(isinstance(e, ast.Name) for e in st_.targets[0].elts):
+                names = [e.id for e in st_.targets[0].elts]
+                break
+        else:
+            # or element access by index
+            idx = {}
+            for st_ in walk_no_nested(loopt[0]):
+                if isinstance(st_, ast.Assign) and len(st_.targets) == 1 and isinstance(st_.targets[0], ast.Name) and isinstance(st_.value, ast.Subscript) \
+                        and src(st_.value.value) == loopt[0].target.id and isinstance(st_.value.slice, ast.Constant):
+                    idx[st_.value.slice.value] = st_.targets[0].id
+            names = [idx.get(k, f'<unused {k}>') for k in range(6)] if idx else []
+
+    def roots(e):
+        """names an expression depends on, looking through single-assignment locals of the loop body"""
+        seen = set()
+        todo = set(names_in(e)) if e is not None else set()
+        while todo:
+            n_ = todo.pop()
+            if n_ in seen:
+                continue
+            seen.add(n_)
+            ds = [st_ for st_ in walk_no_nested(gd) if isinstance(st_, ast.Assign) and len(st_.targets) == 1 and isinstance(st_.targets[0], ast.Name) and st_.targets[0].id == n_]
+            if len(ds) == 1 and n_ not in names:
+                todo |= set(names_in(ds[0].value))
+        return seen
+    ok = len(names) == 6 and names[2] in roots(kw.get('consensus')) and names[3] in roots(kw.get('phred_scores')) \
+        and names[4] in roots(kw.get('cigarstring')) and src(kw.get('start', ast.Constant(0))) == names[0]
     ctx.emit('C15-R4', bool(ok), MOLECULE, call[0], 'consensus read is built from (start, sequence, qualities, CIGAR) of one partial read', key='dedup-reads:argument-wiring')
     # MD: the reference string is assembled from M operations only when the CIGAR may contain N
     md = kw.get('mdstring')
@@ -304,7 +365,7 @@ def r4(ctx):
     why = 'no MD computed'
     if md is not None and isinstance(md, ast.Call) and last_name(dotted(md.func) or '') == 'create_MD_tag' and len(md.args) == 2:
         refarg, qarg = md.args
-        okq2 = bool(names) and names[2] in names_in(qarg)
+        okq2 = bool(names) and names[2] in roots(qarg)
         direct_fetch = [c for c in walk_no_nested(refarg) if isinstance(c, ast.Call) and isinstance(c.func, ast.Attribute) and c.func.attr == 'fetch']
         if direct_fetch:
             # a contiguous fetch start..end is only right when no N can be inside the partial CIGAR
